@@ -83,6 +83,42 @@ def gen_shared_end_case(rng):
 
 
 def gen_case(rng, i, tier):
+    if i % 12 == 1:
+        # node-and-edge states on a sparsely observed chain whose integer labels 0..n-1 are scattered over the chain (label 0,
+        # which is falsy, somewhere in the middle): every gap needs non-emitting node AND edge states
+        m, tr = gen.gen_sparse_chain_case(rng, labels=("intperm",))
+        if rng.random() < 0.6 and m.get("created") and len(m["created"]) >= 5:
+            # ... with a one-way dead-end spur whose END node carries the label 0: the vehicle is seen on the spur and next
+            # far along the main road (it cannot get there from the spur: the match has to leave through the fork node)
+            c_ = gen.coords(m)
+            main = list(m["created"])[: m.get("chain_len", len(m["created"]))]
+            k_ = rng.randint(1, len(main) - 3)
+            fork = main[k_]
+            new = max(l for l, _ in m["nodes"]) + 1
+            ren = {0: new, new: 0}   # the label 0 moves to the spur end; the node that had it gets a fresh label
+            m["nodes"] = [[ren.get(l, l), p_] for l, p_ in m["nodes"]]
+            m["edges"] = [[ren.get(a, a), ren.get(b, b)] for a, b in m["edges"]]
+            m["created"] = [ren.get(l, l) for l in m["created"]]
+            main = [ren.get(l, l) for l in main]
+            fork = ren.get(fork, fork)
+            c2 = gen.coords(m)
+            pf = c2[fork]
+            pn = c2[main[k_ + 1]]
+            dy, dx = pn[0] - pf[0], pn[1] - pf[1]
+            spur_end = [pf[0] - dx - 0.3 * dy, pf[1] + dy - 0.3 * dx]   # roughly perpendicular, leaning backwards
+            m["nodes"].append([0, spur_end])
+            m["edges"].append([fork, 0])
+            if rng.random() < 0.7:   # main road one-way beyond the fork
+                m["edges"] = [e for e in m["edges"] if not (e[0] in main and e[1] in main and main.index(e[0]) > main.index(e[1]))]
+            far = main[min(len(main) - 1, k_ + rng.randint(2, 3))]
+            tr = [list(pf), [pf[0] + 0.5 * (spur_end[0] - pf[0]), pf[1] + 0.5 * (spur_end[1] - pf[1])], list(c2[far])]
+            if rng.random() < 0.4 and k_ >= 1:
+                tr.insert(0, list(c2[main[k_ - 1]]))
+        cfg = gen.gen_cfg(rng, families=("simple_nodes",), ne=True, width="maybe", cut=False)
+        cfg["max_dist"] = rng.choice([None, 1.5, 3.0])
+        case = {"map": m, "trace": tr, "cfg": cfg, "backend": "inmem"}
+        case["ops"] = gen.gen_history(rng, len(tr), cfg["width"], allow_cwd=False, max_ops=2)
+        return case
     if i % 12 == 9:
         case = gen.gen_carriageway_case(rng)
         case["backend"] = "inmem"
@@ -100,7 +136,7 @@ def gen_case(rng, i, tier):
         return case
     sq = rng.random() < 0.15
     case = mcase.gen_mcase(rng, families=gen.FAMILIES_ALL, ne=(rng.random() < 0.6), width="maybe", tighten_p=0.15, sparse_p=0.3, max_obs=9,
-                           labels=("int",) if sq else ("int", "int", "str", "gap"))
+                           labels=("int", "intperm") if sq else ("int", "intperm", "str", "gap"))
     m = case["map"]
     es = gen.real_edges(m)
     if not sq and rng.random() < 0.18 and len(es) >= 2 and case["cfg"]["family"] != "simple_nodes":
